@@ -799,11 +799,11 @@ def case_output_options(ctx):
 
 def workload(tier, seed):
     n = len(commands())
-    seeds = [seed * 13 + 1] if tier == "quick" else [seed * 13 + i for i in range(1, 9)]
+    seeds = [seed * 13 + 1] if tier == "quick" else [seed * 13 + i for i in range(1, 21)]
     step = 10
     for lo in range(0, n, step):
         yield "commands", {"lo": lo, "hi": lo + step, "seeds": seeds}
-    for i in range(12 if tier == "quick" else 120):
+    for i in range(12 if tier == "quick" else 600):
         yield "chains", {"rseed": seed * 1000 + i, "count": 12}
     yield "files", {}
     yield "output_options", {}
